@@ -1,5 +1,5 @@
 (* Proofs about the C28 model (KeepAlive.v / RunC28.v). *)
-From Coq Require Import List ZArith Bool Lia.
+From Coq Require Import List ZArith Bool Lia ZifyBool.
 From Bfe Require Import lib.Val lib.Bytes model.Http1Resp model.KeepAlive run.RunC28.
 Import ListNotations.
 Open Scope Z_scope.
@@ -24,7 +24,7 @@ Variable fx : bool.
 (* b is one self-delimiting request: whatever the client sends after it (t), the reader finds request r in b ++ t and
    the position after r's body is exactly t *)
 Definition frames (b : bytes) (r : req) : Prop :=
-  forall t, exists rest, read_request (b ++ t) = ROk r rest /\ after_body (r_framing r) rest = Some t.
+  forall t, exists rest, read_request (b ++ t) = ROk r rest /\ body_end (r_framing r) rest = (t, true).
 
 (* what the client must receive: for the requests in order, the output of each one's handler, up to and including
    the first one after which the server closes *)
@@ -32,7 +32,7 @@ Fixpoint outputs (scripts : list script) (rs : list req) : option bytes :=
   match rs with
   | [] => Some []
   | r :: rest =>
-    match serve_one sniff now fx scripts r with
+    match serve_one sniff now fx scripts r false with
     | None => None
     | Some (out, stop) =>
       if stop then Some out
@@ -48,10 +48,10 @@ Proof.
   - destruct fuel as [|f]; [simpl in Hfuel; lia|]. reflexivity.
   - destruct fuel as [|f]; [simpl in Hfuel; lia|].
     simpl concat. destruct (Hf (concat bs)) as [rest [Hr Ha]].
-    cbn [serve outputs]. rewrite Hr.
-    destruct (serve_one sniff now fx scripts r) as [[out stop]|]; [|reflexivity].
+    cbn [serve outputs]. rewrite Hr, Ha. cbn [fst snd negb].
+    destruct (serve_one sniff now fx scripts r false) as [[out stop]|]; [|reflexivity].
     destruct stop; [reflexivity|].
-    rewrite Ha. rewrite IH by (simpl in Hfuel; lia). reflexivity.
+    rewrite IH by (simpl in Hfuel; lia). reflexivity.
 Qed.
 
 (* a malformed request head is answered "400 Bad Request" and nothing after it is read *)
@@ -65,15 +65,15 @@ Lemma wh_frame_close_mono is_head status nb has_cl at11 h2 :
   snd (fst (wh_frame is_head status nb has_cl at11 h2 true)) = true.
 Proof. unfold wh_frame. destruct (is_head || (status =? 304)), nb, has_cl, at11; reflexivity. Qed.
 
-Lemma write_header_close_expect sniff now allowed q status h clen c0 hdone p :
-  d_close (write_header sniff now true allowed q (true, true, false) status h clen c0 hdone p) = true.
+Lemma write_header_close_expect sniff now allowed q status h clen c0 hdone p be :
+  d_close (write_header sniff now true allowed q (true, true, false, be) status h clen c0 hdone p) = true.
 Proof.
   unfold write_header. cbn [d_close fst snd]. rewrite !andb_true_l. cbn [negb]. rewrite orb_true_r.
   apply wh_frame_close_mono.
 Qed.
 
-Lemma respond_close_expect sniff now allowed q ff status h pieces err :
-  snd (fst (respond_gen sniff now true allowed q (true, true, false) ff status h pieces err)) = true.
+Lemma respond_close_expect sniff now allowed q ff status h pieces err be :
+  snd (fst (respond_gen sniff now true allowed q (true, true, false, be) ff status h pieces err)) = true.
 Proof.
   unfold respond_gen.
   destruct (accept_writes _ _ _ _) as [[acc written] werr].
@@ -86,9 +86,9 @@ Lemma expect_without_continue_closes sniff now scripts r sc :
   (match r_framing r with RLen n => negb (n =? 0) | RChunked => true end) = true ->
   find_script (get_ci s_spec (r_fields r)) scripts = Some sc ->
   h_read sc = 0 -> h_src sc <> 1 ->
-  exists out, serve_one sniff now true scripts r = Some (out, true).
+  forall be, exists out, serve_one sniff now true scripts r be = Some (out, true).
 Proof.
-  intros He Hm Hcl Hs Hr Hsrc. unfold serve_one. rewrite He, Hcl, Hs. cbn [negb andb].
+  intros He Hm Hcl Hs Hr Hsrc be. unfold serve_one. rewrite He, Hcl, Hs. cbn [negb andb].
   assert (E1 : (1 <=? r_minor r) = true) by (apply Z.leb_le; exact Hm). rewrite E1.
   rewrite Hr. assert (E2 : (h_src sc =? 1) = false) by (apply Z.eqb_neq; exact Hsrc). rewrite E2.
   cbn [Z.eqb negb orb andb].
@@ -97,7 +97,7 @@ Proof.
   - destruct (respond' _ _ _ _ _ _ _ _ _ _) as [[out c] d]. eexists; reflexivity.
   - pose proof (respond_close_expect sniff now body_allowed_status
         {| q_minor := r_minor r; q_head := bytes_eqb (r_method r) s_head_m; q_conn := get_ci s_conn (r_fields r) |}
-        false (h_status sc) (h_hdrs sc ++ [(s_xreq, get_ci s_vid (r_fields r))]) (h_pieces sc) (h_err sc)) as Hc.
+        false (h_status sc) (h_hdrs sc ++ [(s_xreq, get_ci s_vid (r_fields r))]) (h_pieces sc) (h_err sc) be) as Hc.
     unfold respond'. destruct (respond_gen _ _ _ _ _ _ _ _ _ _ _) as [[out c] d]. cbn [fst snd] in Hc. subst c.
     eexists; reflexivity.
 Qed.
@@ -120,9 +120,22 @@ Definition ex_b1 : bytes := [80;79;83;84;32;47;97;32;72;84;84;80;47;49;46;49;13;
 Definition ex_b2 : bytes := [71;69;84;32;47;98;32;72;84;84;80;47;49;46;49;13;10;72;111;115;116;58;32;101;120;97;109;112;108;101;46;111;114;103;13;10;88;45;86;101;114;105;102;45;73;100;58;32;114;49;13;10;88;45;86;101;114;105;102;45;83;112;101;99;58;32;114;49;13;10;13;10].
 Definition ex_r1 : req := Eval vm_compute in match read_request ex_b1 with ROk r _ => r | _ => {| r_method := []; r_minor := 0; r_fields := []; r_framing := RChunked |} end.
 Definition ex_r2 : req := Eval vm_compute in match read_request ex_b2 with ROk r _ => r | _ => {| r_method := []; r_minor := 0; r_fields := []; r_framing := RChunked |} end.
+Lemma body_end_len (b t : bytes) n : Z.of_nat (length b) = n -> body_end (RLen n) (b ++ t) = (t, true).
+Proof.
+  intro H. unfold body_end, blen. rewrite app_length.
+  replace (Z.of_nat (length b + length t) <? n) with false by lia.
+  rewrite <- H, Nat2Z.id. f_equal. clear H. induction b as [|x b IH]; [reflexivity|]. cbn [length app]. rewrite skipn_cons. exact IH.
+Qed.
+Definition ex_evil : bytes := [71;69;84;32;47;101;118;105;108;32;72;84;84;80;47;49;46;49;13;10;72;111;115;116;58;32;101;120;97;109;112;108;101;46;111;114;103;13;10;88;45;86;101;114;105;102;45;73;100;58;32;101;118;105;108;13;10;88;45;86;101;114;105;102;45;83;112;101;99;58;32;101;118;105;108;13;10;13;10].
 Lemma ex_frames1 : frames ex_b1 ex_r1.
-Proof. intro t. eexists. split; vm_compute; reflexivity. Qed.
+Proof.
+  intro t. exists (ex_evil ++ t). split; [vm_compute; reflexivity|].
+  exact (body_end_len ex_evil t 79 eq_refl).
+Qed.
 Lemma ex_frames2 : frames ex_b2 ex_r2.
-Proof. intro t. eexists. split; vm_compute; reflexivity. Qed.
+Proof.
+  intro t. exists ([] ++ t). split; [vm_compute; reflexivity|].
+  exact (body_end_len [] t 0 eq_refl).
+Qed.
 Lemma ex_in_order : Forall2 frames [ex_b1; ex_b2] [ex_r1; ex_r2] /\ r_framing ex_r1 = RLen 79 /\ r_framing ex_r2 = RLen 0.
 Proof. split; [repeat constructor; [exact ex_frames1|exact ex_frames2]|split; reflexivity]. Qed.
